@@ -230,6 +230,7 @@ func (s *nspSocketStore) sendBuffers(sid SocketID, buffers [][]byte) (ok bool) {
 		return false
 	}
 	socket := _socket.(*serverSocket)
+	vhook.Event("nsp.send", "o", s, "sid", sid, "buf", buffers)
 	socket.conn.sendBuffers(buffers...)
 	return true
 }
